@@ -689,7 +689,8 @@ def json_extract_cased_as_varchar(expression: exp.Expression) -> exp.Expression:
         and (gp := expression.this)
         and isinstance(gp, exp.JSONExtract)
         and (path := gp.expression)
-        and isinstance(path, exp.JSONPath)
+        # a literal path comes from indices_to_json_extract, eg: v['a'] or v[0]
+        and isinstance(path, (exp.JSONPath, exp.Literal))
     ):
         expression.set("this", exp.JSONExtractScalar(this=gp.this, expression=path))
 
@@ -707,7 +708,8 @@ def json_extract_cast_as_varchar(expression: exp.Expression) -> exp.Expression:
         and (je := expression.this)
         and isinstance(je, exp.JSONExtract)
         and (path := je.expression)
-        and isinstance(path, exp.JSONPath)
+        # a literal path comes from indices_to_json_extract, eg: v['a'] or v[0]
+        and isinstance(path, (exp.JSONPath, exp.Literal))
     ):
         je.replace(exp.JSONExtractScalar(this=je.this, expression=path))
     return expression
